@@ -172,7 +172,8 @@ def run(tr, inp):
     if kind == "UserSwapPredecessors":
         return U.UserSwapPredecessors(tr, (a["u"], a["v"])), info
     if kind == "UserDeleteNode":
-        return U.UserDeleteNode(tr, a["n"]), info
+        px = tr.get_pixels(a["n"]) if a.get("give_pixels") else None
+        return U.UserDeleteNode(tr, a["n"], pixels=px), info
     if kind == "UserAddNode":
         px = tuple(np.array([c[d] for c in a["pixels"]]) for d in range(seg.ndim))
         return U.UserAddNode(tr, a["n"], {T: a["frame"], TID: a["tid"], CUS: a["cus"]}, pixels=px,
